@@ -83,7 +83,7 @@ def load_known():
 
 
 def write_replay(cid, case, seed, res):
-    d = os.path.join(VERIF, "replays", cid)
+    d = os.path.join(os.environ.get("VT_REPLAY_DIR", os.path.join(VERIF, "replays")), cid)
     os.makedirs(d, exist_ok=True)
     p = os.path.join(d, case_hash(case) + ".json")
     with open(p, "w") as f:
@@ -248,11 +248,12 @@ def run_check(cid: str, tier: str) -> int:
         "violations": len(new_violations),
     }
     validate_evidence(ev)
-    os.makedirs(os.path.join(VERIF, "evidence"), exist_ok=True)
-    tmp = os.path.join(VERIF, "evidence", cid + ".json.tmp")
-    with open(tmp, "w") as f:
-        json.dump(ev, f, indent=1, default=str)
-    os.replace(tmp, os.path.join(VERIF, "evidence", cid + ".json"))
+    if not os.environ.get("VT_NO_EVIDENCE"):
+        os.makedirs(os.path.join(VERIF, "evidence"), exist_ok=True)
+        tmp = os.path.join(VERIF, "evidence", cid + ".json.tmp")
+        with open(tmp, "w") as f:
+            json.dump(ev, f, indent=1, default=str)
+        os.replace(tmp, os.path.join(VERIF, "evidence", cid + ".json"))
     print("%s tier=%s seed=%d cases=%d nontrivial=%d transitions=%d outcomes=%s skipped=%s known=%d violations=%d exhaustive=%s wall=%.1fs" % (
         cid, tier, seed, n_eval, len(nontrivial), n_trans, outcomes, skipped, len(printed_known),
         len(new_violations), cov["exhaustive"], wall))
